@@ -961,6 +961,8 @@ where
         cases,
         failure_persistence: None,
         max_shrink_iters: 4096,
+        // bounds the effort spent on minimising a failure (the verdict does not depend on it)
+        max_shrink_time: 60_000,
         max_global_rejects: 1_000_000,
         ..Config::default()
     };
